@@ -5,7 +5,7 @@
    it came about, so every state an earlier run can leave behind — completed, failed, killed between
    any two file operations, with other inputs, chunk sizes or prefixes, torn appends included — is
    covered by the quantification over all directories. *)
-From Mokaverif Require Import Model.Base Model.Confidence Model.PinTsv Model.Fs Proofs.FsP Proofs.FsValP.
+From Mokaverif Require Import Model.Base Model.Confidence Model.PinTsv Model.Fs Proofs.FsP Proofs.FsValP Proofs.FsAppendP.
 Open Scope Z_scope.
 
 (* ---- generic: any run, as a list of file operations ---- *)
@@ -199,6 +199,150 @@ Theorem C09_touches_own_files_proteins : forall g, fg_glob g = false ->
 Proof. exact run_touches_own_files_g. Qed.
 Print Assumptions C09_touches_own_files_proteins.
 
+(* ---- append_to_output_file=True ([fg_append g = true]) ----
+   The result files are not created afresh: the rows are appended to whatever is under these names (documented behaviour;
+   the command line uses it for several PIN files that share result files).  The result files of the run
+   ([fs_result_names g]) are then INPUTS: the results depend on the starting directory through them, and — this is what the
+   theorems say — through nothing else, and in exactly one way: old content first, then the rows of the run.
+   [run_oka g] is [run_okp g] with the flag the other way round: chunk files not found by glob, fg_append g = true, and — when
+   a protein level is requested — a peptide level to read from and the recorded oracle value. *)
+
+(* with its result files counted as declared inputs the append-mode run has the discipline of C09_independent_generic *)
+Theorem C09_append_reads_only_result_files_and_its_own : forall g, run_oka g ->
+  wf_ops cfn (fs_result_names g) (fs_run_ops g) = true.
+Proof. exact run_ops_wf_append. Qed.
+Print Assumptions C09_append_reads_only_result_files_and_its_own.
+
+(* independence from every file EXCEPT the own result files: two directories that agree on these — and differ in anything
+   else: stale chunk and level files, result files of other prefixes / levels, ... — give the same result files, and the run
+   succeeds in one iff in the other *)
+Theorem C09_append_depends_only_on_result_files : forall g sA sB, run_oka g ->
+  (forall n, In n (fs_result_names g) -> fs_get ccontent sA n = fs_get ccontent sB n) ->
+  match fs_run g None sA, fs_run g None sB with
+  | Some a, Some b => forall n, In n (fs_result_names g) -> fs_get ccontent a n = fs_get ccontent b n
+  | None, None => True
+  | _, _ => False
+  end.
+Proof. exact run_append_independent. Qed.
+Print Assumptions C09_append_depends_only_on_result_files.
+
+(* no chunk file, level file or protein-level file the run used is left *)
+Theorem C09_append_no_intermediates : forall g s s', run_oka g -> fs_run g None s = Some s' ->
+  forall n, fs_mem n (touched cfn (fs_run_ops g)) = true -> is_result n = false ->
+  fs_get ccontent s' n = None.
+Proof. exact run_append_no_intermediates. Qed.
+Print Assumptions C09_append_no_intermediates.
+
+(* footprint: files the run does not name keep their content (C09_touches_own_files_proteins, which does not mention
+   fg_append, says that the names are chunk, level and result names) — and the only result files it names are its own *)
+Theorem C09_append_untouched : forall g s s', run_oka g -> fs_run g None s = Some s' ->
+  forall n, fs_mem n (touched cfn (fs_run_ops g)) = false -> fs_get ccontent s' n = fs_get ccontent s n.
+Proof. exact run_append_untouched. Qed.
+Print Assumptions C09_append_untouched.
+
+Theorem C09_append_touches_own_result_files_only : forall g, run_oka g ->
+  forall n, is_result n = true -> fs_mem n (touched cfn (fs_run_ops g)) = true -> In n (fs_result_names g).
+Proof. exact run_append_touches_own_results. Qed.
+Print Assumptions C09_append_touches_own_result_files_only.
+
+(* refinement from ANY directory, for either value of fg_append, without any hypothesis on result files: [run_effect_a] is
+   [run_effect_p] except that a result file a collection appends to and that is ABSENT is created by the first append —
+   rows only, the header that [initialize] would have written is not in the model's contents — and stays absent when the
+   levels behind it have no row (nothing is appended then).  In particular a missing result file is never an error *)
+Theorem C09_run_refines_effect_any_directory : forall g s, fg_glob g = false ->
+  (forall cl, In cl (fg_colls g) -> prot_ok g cl) -> (0 < fg_c g)%nat ->
+  if forallb (prot_key_ok g) (fg_colls g)
+  then exists s', fs_run g None s = Some s' /\
+         forall n, fs_get ccontent s' n = run_effect_a g false (fg_colls g) (fs_get ccontent s) n
+  else fs_run g None s = None.
+Proof. exact run_exec_any. Qed.
+Print Assumptions C09_run_refines_effect_any_directory.
+
+Theorem C09_append_succeeds_from_any_directory : forall g s, run_oka g -> (0 < fg_c g)%nat ->
+  (fs_run g None s <> None <-> forallb (prot_key_ok g) (fg_colls g) = true).
+Proof. exact run_append_succeeds. Qed.
+Print Assumptions C09_append_succeeds_from_any_directory.
+
+(* where the result files a collection appends to are present, the two effects coincide *)
+Theorem C09_effect_with_result_files_present : forall g cls seen v,
+  (forall cl n, In cl cls -> own_result_p g cl n = true -> v n <> None) ->
+  forall n, run_effect_a g seen cls v n = run_effect_p g seen cls v n.
+Proof. exact run_effect_a_present. Qed.
+Print Assumptions C09_effect_with_result_files_present.
+
+(* hence, started with its result files present ([results_present g s]) in an otherwise arbitrary directory, the
+   append-mode run ends in the directory given by the abstract effect of C09_run_refines_effect(_proteins): with
+   fg_append g = true every collection's clause is [coll_effect(_p) g true]: chunk and level files absent, result file =
+   what it held ++ the target resp. decoy rows of its level with their q-values, every other name as it was *)
+Theorem C09_append_refines_effect_proteins : forall g s, run_oka g -> (0 < fg_c g)%nat -> results_present g s ->
+  if forallb (prot_key_ok g) (fg_colls g)
+  then exists s', fs_run g None s = Some s' /\
+         forall n, fs_get ccontent s' n = run_effect_p g false (fg_colls g) (fs_get ccontent s) n
+  else fs_run g None s = None.
+Proof. exact run_exec_append_p. Qed.
+Print Assumptions C09_append_refines_effect_proteins.
+
+Theorem C09_append_refines_effect : forall g s, fg_glob g = false -> fg_append g = true -> fg_proteins g = false ->
+  (0 < fg_c g)%nat -> results_present g s ->
+  exists s', fs_run g None s = Some s' /\
+    forall n, fs_get ccontent s' n = run_effect g false (fg_colls g) (fs_get ccontent s) n.
+Proof. exact run_exec_append. Qed.
+Print Assumptions C09_append_refines_effect.
+
+(* file by file, from EVERY directory: [own_rows g cls n] = the rows the collections writing to [n] add, in the order of
+   the call (per collection: [side d] of the file's level — the rows of that level with target flag [negb d], each with
+   its q-value); [file_after old lrows rows] = [old ++ rows] for a file that was there, and for an absent one: created
+   holding [rows], unless the levels behind it ([own_lrows]) have no row at all *)
+Theorem C09_append_files : forall g s, run_oka g -> (0 < fg_c g)%nat ->
+  (forall cl, In cl (fg_colls g) -> prot_key_ok g cl = true) ->
+  exists s', fs_run g None s = Some s' /\
+    forall n, In n (fs_result_names g) ->
+      fs_get ccontent s' n = file_after (fs_get ccontent s n) (own_lrows g (fg_colls g) n) (own_rows g (fg_colls g) n).
+Proof. exact run_append_files. Qed.
+Print Assumptions C09_append_files.
+
+(* [own_rows] is what the run WITHOUT appending leaves in its result files, from any directory — provided no prefix other
+   than "none" is used by two collections ([pfx_distinct]: a collection with a prefix creates its result files afresh, so
+   the second one of the same prefix truncates what the first one wrote) *)
+Theorem C09_clean_run_rows : forall g s, run_okp g -> (0 < fg_c g)%nat ->
+  (forall cl, In cl (fg_colls g) -> prot_key_ok g cl = true) -> pfx_distinct (fg_colls g) = true ->
+  exists c', fs_run g None s = Some c' /\
+    forall n, In n (fs_result_names g) -> fs_get ccontent c' n = Some (own_rows g (fg_colls g) n).
+Proof. exact run_clean_rows. Qed.
+Print Assumptions C09_clean_run_rows.
+
+(* the dependence on what was there is exactly a prefix: afterwards each own result file holds its previous content
+   followed by what the clean run — same configuration with fg_append = false ([fs_noappend g]), empty directory — writes *)
+Theorem C09_append_prefix : forall g s, run_oka g -> (0 < fg_c g)%nat ->
+  (forall cl, In cl (fg_colls g) -> prot_key_ok g cl = true) -> pfx_distinct (fg_colls g) = true ->
+  results_present g s ->
+  exists s' c', fs_run g None s = Some s' /\ fs_run (fs_noappend g) None [] = Some c' /\
+    forall n, In n (fs_result_names g) ->
+      exists old new, fs_get ccontent s n = Some old /\ fs_get ccontent c' n = Some new /\
+                      fs_get ccontent s' n = Some (old ++ new).
+Proof. exact run_append_prefix. Qed.
+Print Assumptions C09_append_prefix.
+
+(* result files present but empty (header only): the results are the clean run's *)
+Theorem C09_append_from_empty_result_files : forall g s, run_oka g -> (0 < fg_c g)%nat ->
+  (forall cl, In cl (fg_colls g) -> prot_key_ok g cl = true) -> pfx_distinct (fg_colls g) = true ->
+  (forall n, In n (fs_result_names g) -> fs_get ccontent s n = Some []) ->
+  exists s' c', fs_run g None s = Some s' /\ fs_run (fs_noappend g) None [] = Some c' /\
+    forall n, In n (fs_result_names g) -> fs_get ccontent s' n = fs_get ccontent c' n.
+Proof. exact run_append_from_empty_files. Qed.
+Print Assumptions C09_append_from_empty_result_files.
+
+(* [pfx_distinct] cannot be dropped from the last three statements: with one prefix used twice the append-mode run keeps
+   the rows of both collections, the clean run only those of the second (C09_append_files holds regardless) *)
+Theorem C09_append_duplicate_prefix :
+  exists g s n, run_oka g /\ pfx_distinct (fg_colls g) = false /\ In n (fs_result_names g) /\ fs_get ccontent s n = Some [] /\
+    match fs_run g None s, fs_run (fs_noappend g) None [] with
+    | Some s', Some c' => fs_get ccontent s' n <> fs_get ccontent c' n
+    | _, _ => False
+    end.
+Proof. exact run_append_duplicate_prefix. Qed.
+Print Assumptions C09_append_duplicate_prefix.
+
 (* the appends to the file of level j happen batch 0, 1, 2, ... in order, the last one being the final flush —
    however the batches of different levels interleave *)
 Theorem C09_level_appends_in_order : forall c, (0 < c)%nat -> forall dedup nl stream j, (j < nl)%nat ->
@@ -383,6 +527,90 @@ Definition ex_cfg_prot_badkey : fs_cfg :=
 Example C09_example_key_mismatch :
   forallb (prot_key_ok ex_cfg_prot_badkey) (fg_colls ex_cfg_prot_badkey) = false /\
   fs_run ex_cfg_prot_badkey None ex_dirty_prot = None /\ fs_run ex_cfg_prot_badkey None [] = None.
+Proof. vm_compute. repeat split. Qed.
+
+(* ---- append mode: two collections (one un-prefixed, one with prefix 3), fg_append = true, started in a dirty directory:
+   stale chunk files under the run's own names, a stale level file, a result file of a foreign prefix, and the run's own
+   eight result files holding rows of earlier runs (some of them header only) *)
+Definition ex_cfg_app : fs_cfg :=
+  {| fg_ext := false; fg_c := 2; fg_dedup := true; fg_nlevels := 2; fg_decoys := true; fg_append := true;
+     fg_glob := false; fg_proteins := false;
+     fg_colls := [ {| fc_pfx := 0; fc_rows := ex_rows; fc_prot := None |}; {| fc_pfx := 3; fc_rows := ex_rows2; fc_prot := None |} ] |}.
+Definition ex_old : ccontent := [ (List.hd (ap_row 0 0 true 0) ex_prot_rows, 1 # 2) ].
+Definition ex_dirty_app : cfs :=
+  [ (NChunk 0 7 false, fs_plain ex_rows); (NChunk 3 0 false, fs_plain ex_rows); (NLevel 1 false, fs_plain ex_rows2);
+    (NResult 0 false 0, fs_plain ex_rows2); (NResult 0 true 0, []); (NResult 0 false 1, ex_old); (NResult 0 true 1, []);
+    (NResult 3 false 0, fs_plain ex_rows); (NResult 3 true 0, ex_old); (NResult 3 false 1, []); (NResult 3 true 1, fs_plain ex_rows2);
+    (NResult 5 false 0, fs_plain ex_rows); (NOther 5, []) ].
+
+Example C09_run_oka_satisfiable :
+  run_oka ex_cfg_app /\ (0 < fg_c ex_cfg_app)%nat /\ results_present ex_cfg_app ex_dirty_app /\
+  pfx_distinct (fg_colls ex_cfg_app) = true /\ (forall cl, In cl (fg_colls ex_cfg_app) -> prot_key_ok ex_cfg_app cl = true).
+Proof.
+  split; [|split; [|split; [|split]]].
+  - split; [reflexivity|]. split; [reflexivity|]. intros cl _ E. discriminate E.
+  - cbn; auto with arith.
+  - intros n Hn. cbn in Hn. repeat (destruct Hn as [<-|Hn]; [vm_compute; discriminate|]). destruct Hn.
+  - reflexivity.
+  - intros cl _. reflexivity.
+Qed.
+
+Definition ex_names_app : list fname :=
+  fs_result_names ex_cfg_app ++ map snd (fs_run_trace ex_cfg_app) ++ map fst ex_dirty_app.
+Definition ex_onil (o : option ccontent) : ccontent := match o with Some c => c | None => [] end.
+
+(* what [fs_run] computes from the dirty directory is the right-hand side of C09_append_refines_effect on every name
+   involved; each own result file = what it held ++ what the clean run writes (C09_append_prefix); intermediates gone,
+   stale files under foreign names untouched *)
+Example C09_example_append :
+  match fs_run ex_cfg_app None ex_dirty_app, fs_run (fs_noappend ex_cfg_app) None [] with
+  | Some a, Some c =>
+      map (fs_get ccontent a) ex_names_app
+        = map (run_effect ex_cfg_app false (fg_colls ex_cfg_app) (fs_get ccontent ex_dirty_app)) ex_names_app /\
+      map (fs_get ccontent a) (fs_result_names ex_cfg_app)
+        = map (fun n => Some (ex_onil (fs_get ccontent ex_dirty_app n) ++ ex_onil (fs_get ccontent c n))) (fs_result_names ex_cfg_app) /\
+      map (fs_get ccontent a) (fs_result_names ex_cfg_app)
+        = map (fun n => file_after (fs_get ccontent ex_dirty_app n) (own_lrows ex_cfg_app (fg_colls ex_cfg_app) n)
+                                   (own_rows ex_cfg_app (fg_colls ex_cfg_app) n)) (fs_result_names ex_cfg_app) /\
+      map (fun r => cf_id (fst r)) (ex_onil (fs_get ccontent a (NResult 0 false 0))) = [11; 12; 13; 14; 1; 3; 5] /\
+      map (fun r => cf_id (fst r)) (ex_onil (fs_get ccontent a (NResult 3 true 0))) = [901; 11] /\
+      (8 =? length (fs_result_names ex_cfg_app))%nat = true /\
+      fs_get ccontent a (NLevel 1 false) = None /\ fs_get ccontent a (NChunk 3 0 false) = None /\
+      fs_get ccontent a (NChunk 0 7 false) = Some (fs_plain ex_rows) /\
+      fs_get ccontent a (NResult 5 false 0) = Some (fs_plain ex_rows) /\ fs_get ccontent a (NOther 5) = Some []
+  | _, _ => False
+  end.
+Proof. vm_compute. repeat split. Qed.
+
+(* two directories that agree on the own result files (here: the dirty one and the one holding nothing else) give the
+   same result files (C09_append_depends_only_on_result_files) *)
+Example C09_example_append_independent :
+  let only_results := filter (fun e => match fst e with NResult 5 _ _ => false | NResult _ _ _ => true | _ => false end) ex_dirty_app in
+  match fs_run ex_cfg_app None ex_dirty_app, fs_run ex_cfg_app None only_results with
+  | Some a, Some b => map (fs_get ccontent a) (fs_result_names ex_cfg_app) = map (fs_get ccontent b) (fs_result_names ex_cfg_app) /\
+                      (length only_results =? 8)%nat = true
+  | _, _ => False
+  end.
+Proof. vm_compute. split; reflexivity. Qed.
+
+(* one own result file missing (decoys of level 1 under prefix 3): the run succeeds, the file is created by the append and
+   holds the rows only — [run_effect_a] / [file_after], not [run_effect] (C09_run_refines_effect_any_directory,
+   C09_append_files) *)
+Definition ex_dirty_app_missing : cfs :=
+  filter (fun e => negb (fname_eqb (fst e) (NResult 3 true 1))) ex_dirty_app.
+Example C09_example_append_missing :
+  match fs_run ex_cfg_app None ex_dirty_app_missing with
+  | Some a =>
+      fs_get ccontent ex_dirty_app_missing (NResult 3 true 1) = None /\
+      map (fs_get ccontent a) ex_names_app
+        = map (run_effect_a ex_cfg_app false (fg_colls ex_cfg_app) (fs_get ccontent ex_dirty_app_missing)) ex_names_app /\
+      map (fs_get ccontent a) (fs_result_names ex_cfg_app)
+        = map (fun n => file_after (fs_get ccontent ex_dirty_app_missing n) (own_lrows ex_cfg_app (fg_colls ex_cfg_app) n)
+                                   (own_rows ex_cfg_app (fg_colls ex_cfg_app) n)) (fs_result_names ex_cfg_app) /\
+      map (fun c => map (fun r => cf_id (fst r)) c) (match fs_get ccontent a (NResult 3 true 1) with Some c => [c] | None => [] end)
+        = [[11]]
+  | None => False
+  end.
 Proof. vm_compute. repeat split. Qed.
 
 (* a kill after 9 operations of the same run leaves chunk files and a half-written level file *)
